@@ -1,5 +1,6 @@
-(* C08 shares the lifecycle entry points *)
+(* C08: lifecycle entry points, comparing the observables this property is about *)
+From Coq Require Import NArith.
 From AdltV Require Export Base.Obs Exec.Lifecycle.
 Definition case_C08 := case_LC.
-Definition agree_C08 := agree_LC.
+Definition agree_C08 := agree_LC_mode 8%N.
 Definition run_C08 := run_LC.
